@@ -393,8 +393,8 @@ fn probe_large<T: Sc>(rep: &mut Report) {
     rep.count("large_model_probes", 1);
 }
 
-/// several functions with OVERLAPPING parameter sets and different arities (and an invariant function
-/// in between), under parameter names whose lexicographic, numeric and declaration orders all differ
+/// several functions with OVERLAPPING parameter sets and different arities (an invariant function in
+/// between, one list twice and once permuted), under parameter names whose lexicographic, numeric and declaration orders all differ
 fn probe_overlap<T: Sc>(rep: &mut Report) {
     for names in [["a", "b", "c", "d"], ["10", "2", "1", "01"], ["x2", "x", "x10", "X"]] {
         let n = |i: usize| names[i].to_string();
@@ -407,11 +407,58 @@ fn probe_overlap<T: Sc>(rep: &mut Report) {
             f(vec![2], "fwd"),
             f(vec![3, 2, 1, 0], "rev"),
             f(vec![1, 3], "fwd"),
+            // the same list a second time, and a permutation of it
+            f(vec![0, 1], "rev"),
+            f(vec![1, 0], "fwd"),
         ];
         let cfg = CfgJ { funs, mp: names.iter().map(|s| s.to_string()).collect(), bad: BadJ { j: 0, which: 0, how: "ok".into() } };
         check_cfg_by_indexing::<T>(&cfg, &format!("seven functions with overlapping parameter sets, names {:?}", names), &[0, 1, 2, 3], rep);
     }
     rep.count("overlap_model_probes", 1);
+}
+
+/// C17 beyond two functions: the misbehaving closure (wrong output length) sits in the MIDDLE of three
+/// functions.  The call that reaches it returns the error value - never a panic, never a partially
+/// filled matrix - the calls that do not reach it succeed, and the parameters stay what they were.
+fn probe_middle_bad<T: Sc>(rep: &mut Report) {
+    for how in ["short", "long", "empty"] {
+        for which in [0usize, 1, 2] {
+            let n = |s: &str| s.to_string();
+            let funs = vec![
+                FunJ { ps: vec![n("a")], dord: "fwd".into() },
+                FunJ { ps: vec![n("a"), n("b")], dord: "fwd".into() },
+                FunJ { ps: vec![n("b")], dord: "fwd".into() },
+            ];
+            let cfg = CfgJ { funs, mp: vec![n("a"), n("b")], bad: BadJ { j: 2, which, how: how.into() } };
+            let det = |what: &str, got: String| json!({"ctx": "misbehaving closure in the middle of three functions", "cfg": cfg, "scalar": T::NAME, "what": what, "got": got});
+            let Ok(Ok(m)) = catch_unwind(AssertUnwindSafe(|| build_model::<T>(&cfg))) else {
+                rep.violation("C16", det("a valid model failed to build", String::new()));
+                continue;
+            };
+            let before = m.params();
+            // which = 0: the function itself misbehaves; which = i: its derivative w.r.t. its i-th parameter
+            let r = catch_unwind(AssertUnwindSafe(|| m.eval().map(|p| (p.nrows(), p.ncols())).map_err(|e| err_kind(&e))));
+            let want_err = which == 0;
+            let ok = match &r {
+                Ok(Err(k)) => want_err && *k == "UnexpectedFunctionOutput",
+                Ok(Ok((rows, cols))) => !want_err && *rows == NX && *cols == 3,
+                Err(_) => false,
+            };
+            rep.check("C17", ok, 0.0, || det("eval(): error value expected exactly when the middle function misbehaves; never a panic", format!("{r:?}")));
+            for k in 0..2usize {
+                let r = catch_unwind(AssertUnwindSafe(|| m.eval_partial_deriv(k).map(|p| (p.nrows(), p.ncols())).map_err(|e| err_kind(&e))));
+                let want_err = which == k + 1;
+                let ok = match &r {
+                    Ok(Err(kind)) => want_err && *kind == "UnexpectedFunctionOutput",
+                    Ok(Ok((rows, cols))) => !want_err && *rows == NX && *cols == 3,
+                    Err(_) => false,
+                };
+                rep.check("C17", ok, 0.0, || det(&format!("eval_partial_deriv({k}): error value expected exactly when the middle function's derivative misbehaves; never a panic"), format!("{r:?}")));
+            }
+            rep.check("C17", bits_eq(m.params().as_slice(), before.as_slice()), 0.0, || det("parameters changed by failing evaluations", String::new()));
+        }
+    }
+    rep.count("middle_bad_probes", 1);
 }
 
 pub fn run(path: &str) -> Report {
@@ -458,6 +505,8 @@ pub fn run(path: &str) -> Report {
     probe_large::<f32>(&mut total);
     probe_overlap::<f64>(&mut total);
     probe_overlap::<f32>(&mut total);
+    probe_middle_bad::<f64>(&mut total);
+    probe_middle_bad::<f32>(&mut total);
     total.count("sequences", groups.len() as u64);
     total
 }
